@@ -63,6 +63,16 @@ def _run_task(task):
                     wall=time.time() - t0)
 
 
+def _die_with_parent():
+    """worker initializer: a worker must not outlive its check (a check killed by `timeout` left workers spinning for hours otherwise)"""
+    try:
+        import ctypes
+        import signal
+        ctypes.CDLL("libc.so.6", use_errno=True).prctl(1, signal.SIGKILL)      # PR_SET_PDEATHSIG
+    except Exception:   # noqa
+        pass
+
+
 def _kwtag(kw):
     return "[" + ",".join(f"{k}={v}" for k, v in sorted(kw.items())) + "]" if kw else ""
 
@@ -78,7 +88,7 @@ def run_tasks(tasks, nproc=None, inline=False):
             out.append(_run_task(t))
     else:
         ctx = mp.get_context("spawn")
-        with ProcessPoolExecutor(max_workers=nproc, mp_context=ctx) as ex:
+        with ProcessPoolExecutor(max_workers=nproc, mp_context=ctx, initializer=_die_with_parent) as ex:
             futs = {ex.submit(_run_task, t): t for t in tasks}
             for f in as_completed(futs):
                 try:
